@@ -395,11 +395,15 @@ def _true_returns(T, fn):
         v, pol = T.cond(r.value, n, True)
         if v == ("const", False) or v == ("const", None):
             continue
-        extra = []
+        cases = [[]]
         if v != ("const", True):
-            extra = split_cond(v, pol)
-        for ent, facts in T.facts_by_path(n):
-            out.append((r, ent, list(facts) + extra, extra))
+            # ``return not (a and b)`` is true in two ways: each is a way
+            # of its own to return True
+            from ..terms import split_cases
+            cases = split_cases(v, pol) or [split_cond(v, pol)]
+        for extra in cases:
+            for ent, facts in T.facts_by_path(n):
+                out.append((r, ent, list(facts) + extra, extra))
     return out
 
 
